@@ -73,6 +73,56 @@ def known_fns():
     return _KNOWN
 
 
+_KNOWN_ADTS = None
+NONLIB_KINDS = ('bin', 'test', 'tests', 'bench', 'example')
+
+
+def known_adts():
+    global _KNOWN_ADTS
+    if _KNOWN_ADTS is None:
+        p = os.path.join(os.path.dirname(os.path.abspath(__file__)), 'known_adts.txt')
+        with open(p) as fh:
+            _KNOWN_ADTS = set(l.strip() for l in fh if l.strip() and not l.startswith('#'))
+    return _KNOWN_ADTS
+
+
+def moved_items(parsed):
+    """{path in this tree: path in the reference tree} for the types and free functions of the reference tree (pk/known_adts.txt,
+    pk/known_fns.txt) that are absent under their reference path while exactly one item with the same name exists under
+    another module path (and is not itself a reference item)."""
+    simple = lambda p: '<' not in p and '{' not in p and '::_::' not in p and not p.startswith('_::')      # noqa: E731
+    have_t, have_f = {}, {}
+    for d in parsed.values():
+        kind = d['kind']
+        pre = '' if kind == 'lib' else kind + '::'
+        for a in d.get('adts') or []:
+            if simple(a['path']):
+                have_t[pre + a['path']] = kind
+        for rb in d['bodies']:
+            if rb.get('def_kind') == 'Fn' and simple(rb['path']):
+                have_f[pre + rb['path']] = kind
+    out = {}
+    for ref_set, have in ((known_adts(), have_t), (set(p for p in known_fns() if simple(p) and _is_free_fn(p)), have_f)):
+        for r in sorted(ref_set):
+            if not simple(r) or r in have:
+                continue
+            last = r.rsplit('::', 1)[-1]
+            crate = r.split('::', 1)[0] if r.split('::', 1)[0] in NONLIB_KINDS else 'lib'
+            cands = [p for p, k in have.items() if p not in ref_set and p.rsplit('::', 1)[-1] == last and k == crate]
+            if len(cands) == 1:
+                src = cands[0]
+                if crate != 'lib':
+                    src, r = src[len(crate) + 2:], r[len(crate) + 2:]
+                if src != r:
+                    out[src] = r
+    return out
+
+
+def _is_free_fn(p):
+    segs = p.split('::')
+    return len(segs) >= 2 and all(s[:1].islower() or s[:1] == '_' for s in segs)
+
+
 def callee_info(term):
     """Return dict(declared=..., resolved=..., trait=..., self_ty=..., gargs=[...]) for a Call."""
     f = term['func']
@@ -100,11 +150,30 @@ class Facts:
             with open(bg) as fh:
                 self.build = json.load(fh)
         names = sorted(os.listdir(facts_dir))
+        texts = {}
         for n in names:
             if not n.endswith('.json') or n == 'META.json':
                 continue
             with open(os.path.join(facts_dir, n)) as fh:
-                d = json.load(fh)
+                texts[n] = fh.read()
+        # module-move normal form: a type or free function of the reference tree that now lives in another module (a file
+        # split into submodules with `pub use` re-exports) is given its reference path back, everywhere
+        self.moved = {}
+        if normalise:
+            parsed = {n: json.loads(t) for n, t in texts.items()}
+            self.moved = moved_items(parsed)
+            if self.moved:
+                import re as _re
+                pat = _re.compile('(?<![A-Za-z0-9_])(' + '|'.join(_re.escape(k) for k in sorted(self.moved, key=len, reverse=True)) +
+                                  ')(?![A-Za-z0-9_])')
+                texts = {n: pat.sub(lambda m: self.moved[m.group(1)], t) for n, t in texts.items()}
+                parsed = None
+        else:
+            parsed = None
+        for n in names:
+            if n not in texts:
+                continue
+            d = parsed[n] if parsed is not None else json.loads(texts[n])
             self.files.append(n)
             self.crates.append({'crate': d['crate'], 'kind': d['kind'], 'root_file': d['root_file'],
                                 'n_bodies': len(d['bodies'])})
@@ -150,6 +219,10 @@ class Facts:
         self.normalised = []
         self._loopforms = {}
         self._nestforms = {}
+        self.monomorphised = []
+        if normalise:
+            from .provided import monomorphise_provided
+            self.monomorphised = monomorphise_provided(self)
         from .forward import lower_forwarders
         self.forwarded = lower_forwarders(self)
         if normalise:
